@@ -1,5 +1,5 @@
 (** C15 — The working set lists exactly the pending tasks, with stable numbering. *)
-From TC Require Import Model.TaskDb Proofs.ApplyP Proofs.CommitP Proofs.WorkingSetP Proofs.WorkingSetSmall.
+From TC Require Import Model.TaskDb Proofs.ApplyP Proofs.CommitP Proofs.WorkingSetP Proofs.WorkingSetSmall Proofs.WorkingSetNoDupP.
 
 (** [rebuild_spec_ws] is the working set a rebuild produces (see
     [C15_writeback_small_scope] and the correspondence check for the write-back).
@@ -54,6 +54,13 @@ Proof. intros. pose proof (commit_spec status is_pr s ops) as (_ & _ & _ & _ & H
 Theorem C15_writeback_small_scope : forallb writeback_ok small_cases = true.
 Proof. exact writeback_small_scope. Qed.
 
+(** ... each of them once: a rebuild of a duplicate-free working set is
+    duplicate-free (the tasks listed by [all_tasks] are distinct). *)
+Theorem C15_ws_no_duplicates : forall (in_ws : gmap N N -> bool) all s renumber,
+  NoDup (omap id (st_ws s)) -> NoDup (map fst all) ->
+  NoDup (omap id (rebuild_spec_ws in_ws all s renumber)).
+Proof. exact ws_nodup. Qed.
+
 Print Assumptions C15_ws_exact.
 Print Assumptions C15_position_zero.
 Print Assumptions C15_ws_stable.
@@ -61,3 +68,4 @@ Print Assumptions C15_newcomers_after.
 Print Assumptions C15_ws_compact.
 Print Assumptions C15_commit_appends.
 Print Assumptions C15_writeback_small_scope.
+Print Assumptions C15_ws_no_duplicates.
